@@ -78,6 +78,11 @@ def run(F, R):
         f5_publication(F, R, M, sg, acc)
         f6_coherence(F, R, M, sg, acc)
     f2_producer(F, R, M, pubs, dvars)
+    # F8: the form chosen (direct chain vs one indirect table) agrees with the capacity test that admitted the
+    # submission, so the chain written always fits the descriptors reserved for it (shared with C03.E3)
+    from .C03 import e3_capacity
+    for add_id in pubs:
+        e3_capacity(F, R, M, add_id, rule='F8', rule1='F8')
     # F7: no descriptor in two outstanding chains - necessary condition on the release path (shared with C03.E6)
     from .C03 import e6_relink
     from . import C05 as _c5
@@ -87,7 +92,22 @@ def run(F, R):
             e6_relink(F, R, M, _k, rule='F7')
 
 
-def f1_share_fn(F, R, M, sf, dvars, flags_ty):
+def share_fn_rule(F, R, rule):
+    """The descriptor-filling function (the one calling Hal::share) checked under another property's rule name."""
+    M = model(F)
+    M.require_rings()
+    share_fns = find_fn_with_call(F, HAL, 'share')
+    dir_adt = 'hal::BufferDirection'
+    dvars = {v['name']: int(v['discr']) for v in F.adts[dir_adt]['variants']} if dir_adt in F.adts else {}
+    flags_field = M.desc_field_by_role['flags']
+    flags_ty = [f['ty'] for f in F.adts[M.desc_adt]['variants'][0]['fields'] if f['name'] == flags_field][0]
+    if not share_fns:
+        raise Undecided('no function calls Hal::share')
+    for sf in share_fns:
+        f1_share_fn(F, R, M, sf, dvars, flags_ty, rule=rule)
+
+
+def f1_share_fn(F, R, M, sf, dvars, flags_ty, rule='F1'):
     sg = supergraph(F, sf)
     fn = sg.entry_fn
     ptys = [l['ty'] for l in fn['locals'][1:fn['arg_count'] + 1]]
@@ -97,13 +117,13 @@ def f1_share_fn(F, R, M, sf, dvars, flags_ty):
     p_buf = [i + 1 for i, t in enumerate(ptys) if t.startswith('core::ptr::NonNull<[u8]>')]
     where = fn_site(F, sf)
     if len(p_dir) != 1 or len(p_buf) != 1:
-        R.abstain('F1', '%s:params' % sf, 'cannot identify buffer/direction parameters by type: %s' % ptys, where)
+        R.abstain(rule, '%s:params' % sf, 'cannot identify buffer/direction parameters by type: %s' % ptys, where)
         return
     pd, pb = p_dir[0], p_buf[0]
     try:
         paths = PathEnum(sg).run()
     except PathLimit as e:
-        R.abstain('F1', '%s:paths' % sf, str(e), where)
+        R.abstain(rule, '%s:paths' % sf, str(e), where)
         return
     normal = [p for p in paths if not p.panicked]
     seen_dirs = set()
@@ -116,7 +136,7 @@ def f1_share_fn(F, R, M, sf, dvars, flags_ty):
         dname = dname[0] if dname else '?'
         if p.panicked:
             if dname == 'Both':
-                R.held('F1', '%s:Both-panics' % sf, where, 'direction Both never yields a descriptor')
+                R.held(rule, '%s:Both-panics' % sf, where, 'direction Both never yields a descriptor')
             continue
         seen_dirs.add(dname)
         inst = '%s:%s' % (sf, dname)
@@ -135,7 +155,7 @@ def f1_share_fn(F, R, M, sf, dvars, flags_ty):
             sh = shares[0]
             ok = v[0] == 'call' and v[1] == sh[1] and sh[3][0] == ('param', pb) and sh[3][1] == ('param', pd)
             det = 'addr <- %s' % fmt(v)
-        R.check(ok, 'F1', inst + ':addr', where, det,
+        R.check(ok, rule, inst + ':addr', where, det,
                 'descriptor addr is not the result of Hal::share(buffer, direction) of this descriptor\'s buffer: ' + det)
         # len
         ok = False
@@ -146,7 +166,7 @@ def f1_share_fn(F, R, M, sf, dvars, flags_ty):
             others = [x for x in subterms(v) if x[0] == 'param' and x != ('param', pb)]
             ok = bool(lens) and not others
             det = 'len <- %s' % fmt(v)
-        R.check(ok, 'F1', inst + ':len', where, det, 'descriptor len does not derive from the length of this buffer: ' + det)
+        R.check(ok, rule, inst + ':len', where, det, 'descriptor len does not derive from the length of this buffer: ' + det)
         # flags, folded over extra and old values
         ok = False
         det = 'no flags store'
@@ -177,16 +197,16 @@ def f1_share_fn(F, R, M, sf, dvars, flags_ty):
                     break
             R.tables += rows
             if bad and bad.startswith('unfoldable'):
-                R.abstain('F1', inst + ':flags', bad, where)
+                R.abstain(rule, inst + ':flags', bad, where)
                 continue
             ok = bad is None
             det = 'flags <- %s%s' % (fmt(v), '' if ok else ' ; ' + bad)
-        R.check(ok, 'F1', inst + ':flags', where, det,
+        R.check(ok, rule, inst + ':flags', where, det,
                 'descriptor flags are not exactly extra|%s for direction %s (VirtIO 1.2 2.7.5): %s' % (
                     'WRITE' if dname == 'DeviceToDriver' else '0', dname, det))
     for need in ('DriverToDevice', 'DeviceToDriver'):
         if need not in seen_dirs:
-            R.violated('F1', '%s:%s:missing' % (sf, need), where, 'no normal path for direction %s' % need)
+            R.violated(rule, '%s:%s:missing' % (sf, need), where, 'no normal path for direction %s' % need)
 
 
 def f1_uses(F, R, M, sg, share_fns, dvars):
